@@ -193,7 +193,7 @@ func (e *caseEval) cases(v ssa.Value, d int) []vcase {
 				}
 			}
 		case com.IsInvoke():
-			name = com.Method.Name()
+			name = methodName(com.Method)
 		default:
 			if b, ok := com.Value.(*ssa.Builtin); ok {
 				name = b.Name()
